@@ -7,6 +7,7 @@ uuid_from_time / unix_time_from_uuid1 / datetime_from_uuid1 / min/max_uuid_from_
 """
 import datetime, glob, json, os, uuid
 from vf import py2coq, core
+from vf import marshal_validation as MV
 from vf.specs import utiltime
 
 META = {
@@ -27,6 +28,8 @@ OFFSET = 0x01b21dd213814000
 
 def gen(ctx):
     ctx.generate('UtilTime.v', lambda: py2coq.Translator(core.REPO, utiltime.fns()).emit())
+    # second (T) unit: the integer tail of uuid_from_time and Time._from_timestamp (Gen/UtilTimeGen.v, Proofs/C34_bridge.v)
+    MV.gen(ctx, parts=('time',))
 
 
 def zl(v):
@@ -298,6 +301,10 @@ def run(ctx):
     ok = ctx.prove('Props/C34.v')
     if ctx.tier == 'thorough' and ok:
         ctx.coqchk('Props/C34.v')
+    try:
+        MV.validate(ctx, parts=('time',))
+    except Exception as e:
+        ctx.proof_broken.append(('T-time validation', repr(e)[-400:]))
     from cassandra import util as U
     from cassandra.util import Date, Time
     rng = ctx.rng
